@@ -55,6 +55,9 @@ FIXED = [
     ('lr', "start: e $ ;\n\ne: e '+' t | e '-' t | t ;\n\nt: t '*' f | f ;\n\nf: '(' e ')' | @int | @name ;"),
     ('skipto', "start: {->('a' | @int)}* $ ;"),
     ('const', "start: x=@int y=`{x}` z=`7` $ ;"),
+    # constants that interpolate text taken from the input (which may itself look like an interpolation)
+    ('const-text', "start: y=/.*/ c=`{y}` ;"),
+    ('const-text2', "@@whitespace :: ''\n\nstart: y=/[^;]*/ ';' c=`<{y}>` d=`{y}{y}` $ ;"),
     ('cut', "start: {'(' ~ @int ')' | @name}* $ ;"),
     ('ws', "@@whitespace :: /[ \\t]+/\n\nstart: {@int $->}* $ ;"),
     ('comments', "@@comments :: ?\"\\(\\*(?:.|\\n)*?\\*\\)\"\n@@eol_comments :: /#[^\\n]*/\n\nstart: {@name | @int}* $ ;"),
@@ -80,14 +83,14 @@ SEEDS = {
     'int-seq': ['1 -2 +3', '10'], 'uint-seq': ['1 2 3', '1_000 2'], 'float-seq': ['1.5, -2e3, 3', '0.5'], 'bool-seq': ['true False', 'false'],
     'name-seq': ['a b1 _c', 'abc'], 'meta-mix': ['1.5 2 true x -', 'a + 1'], 'meta-named': ['1:2:3.0:true:x'], 'meta-opt': ['1 true x 2.0', 'x'],
     'meta-choice': ['1u -1i 1.5f trueb xn'], 'meta-look': ['1 x 2.5 y'], 'eol-lines': ['ab\ncd\n', 'ab'], 'eol-mix': ['a\nb a\n', 'b'], 'eol-only': ['\n\nx', 'x'],
-    'kw': ['if a then b c', 'x y'], 'lr': ['(2*1)+3', '1+2*3-4', '((1))', 'a*(b+1)'], 'skipto': ['xx a yy 1', 'a'], 'const': ['5'], 'cut': ['(1) x (2)', 'x'],
+    'kw': ['if a then b c', 'x y'], 'lr': ['(2*1)+3', '1+2*3-4', '((1))', 'a*(b+1)'], 'skipto': ['xx a yy 1', 'a'], 'const': ['5'], 'const-text': ['{y} ', 'x{y}', '{y!r}', 'abc', '{1+1}', '"{y}"'], 'const-text2': ['{y};', 'a{y}b;', 'ab;', '{y}{y};'], 'cut': ['(1) x (2)', 'x'],
     'ws': ['1\n2\n', '1 \n'], 'comments': ['a (* c *) 1 # e\nb', 'a'], 'nows': ['1,2,true', '1'], 'ignorecase': ['SELECT a From b 1', 'x'],
     'namechars': ['let a-b 1 let $x', '1'], 'dot': ['abx', 'x'], 'join': ['1,2,3 a;b', '1'],
     'nested-list': ['[1,[2,3],[]]', '[]', '[[1]'], 'nested-block': ['a (b (c)) d', '()'], 'nested-expr': ['1;2;(3;4)', '(1'],
     'nullable-closure': ['a a b', 'b'], 'nullable-join': ['a,a b', 'b'], 'nullable-gather': ['a , a b', 'b'], 'nullable-ws-join': ['aa a b', 'b'], 'nullable-rules': ['a a, a b', 'b'],
 }
 
-ALPHA = st.sampled_from(list('0123456789') * 2 + list('+-._eE') * 2 + list('abtruefalsTFxyz') + [' ', ' ', '\n', '\r', '\r\n', '\t', ',', ':', ';', '(', ')', '*', '#']
+ALPHA = st.sampled_from(list('0123456789') * 2 + list('+-._eE') * 2 + list('abtruefalsTFxyz') + [' ', ' ', '\n', '\r', '\r\n', '\t', ',', ':', ';', '(', ')', '*', '#', '{', '}', '{y}', '{x}', '!r', "'", '"']
                         + ['true', 'false', 'True', 'False', 'if', 'then', 'let', '1_0', '1.', '.5', '1e', '1e+', '-', '+-', '__', '_1', '1_', '\x00', '\x0b', '\x0c', '\x1c', '\x85',
                            ' ', ' ', 'é', '漢', '🙂', '́', '​', '٣', '²', 'ǅ'])
 
@@ -469,7 +472,7 @@ def run_grammars(sh, n):
 
 
 # ------------------------------------------------------------------ (c) regular expressions in directives and patterns
-RX_ATOMS = ['a', 'b', '1', ' ', '\\s', '\\d', '\\w', '.', '[ab]', '[^a]', '[ \\t]', '#', '\\n', '\\b', '^', '$', '\\\\', '\\/', '-', '[z-a]', '\\1', '\\N{foo}', '\\u12', '\\x4', '(?P=n)', '[', ']', '(', ')', '\\']
+RX_ATOMS = ['a', 'b', '1', ' ', '\\s', '\\d', '\\w', '.', '[ab]', '[^a]', '[ \\t]', '#', "'", '"', "\\\\'", '\\\\"', '\\n', '\\b', '^', '$', '\\\\', "\\'", '\\"', '\\/', '-', '[z-a]', '\\1', '\\N{foo}', '\\u12', '\\x4', '(?P=n)', '[', ']', '(', ')', '\\']
 RX_QUANT = ['*', '+', '?', '*?', '+?', '{2}', '{0,1}', '{1,}', '{,2}', '{99999999999}', '{2,1}', '**', '{']
 RX_FLAGS = ['(?i)', '(?m)', '(?s)', '(?x)', '(?a)', '(?u)', '(?L)', '(?a)(?u)', '(?ms)', '(?-i:a)', '(?z)']
 RX_GROUPS = ['(%s)', '(?:%s)', '(?P<n>%s)', '(?=%s)', '(?!%s)', '(?<=%s)', '(?<!%s)', '(?#%s)', '(%s', '%s)', '(?(1)%s|b)', '(?>%s)']
@@ -482,7 +485,7 @@ def gen_regex(rnd, depth=0):
     for _ in range(n):
         r = rnd.random()
         if r < 0.5 or depth >= 2:
-            a = rnd.choice(RX_ATOMS[:16]) if rnd.random() < 0.8 else rnd.choice(RX_ATOMS)
+            a = rnd.choice(RX_ATOMS[:20]) if rnd.random() < 0.8 else rnd.choice(RX_ATOMS)
         elif r < 0.8:
             a = rnd.choice(RX_GROUPS[:5] if rnd.random() < 0.8 else RX_GROUPS) % gen_regex(rnd, depth + 1)
         else:
